@@ -1,2 +1,444 @@
+//! Entraited traits: forwarding through Impl<T> (C06), dependency inversion (C07), trait preserved (C09).
+use super::c_assemble::{check_delegating_method, impl_methods, trait_methods};
 use super::*;
-pub fn contracts() -> Vec<Contract> { vec![] }
+
+pub fn contracts() -> Vec<Contract> {
+    vec![
+        Contract { name: "c06_trait_forwarding", function: "entrait_trait/mod.rs::{output_tokens, gen_delegation_method, ImplWhereClause, DelegatingMethod}, out_trait.rs::analyze_trait", props: &["C06", "C19"], run: c06 },
+        Contract { name: "c07_dependency_inversion", function: "entrait_trait/mod.rs::{gen_impl_delegation_trait_defs, gen_delegation_method, ImplWhereClause}, entrait_impl/mod.rs::output_tokens_for_impl, signature/converter.rs (StaticImpl / DynamicImpl receivers)", props: &["C07", "C19"], run: c07 },
+        Contract { name: "c09_trait_preserved", function: "entrait_trait/out_trait.rs::analyze_trait, trait_codegen.rs::gen_trait_def, input.rs::Input::parse (unsafe / auto)", props: &["C09"], run: c09 },
+    ]
+}
+
+fn squash(s: &str) -> String {
+    s.chars().filter(|c| !c.is_whitespace()).collect()
+}
+
+struct TraitCase {
+    generics: &'static str,
+    args: &'static str, // how the trait is referred to with its arguments
+    methods: Vec<(&'static str, &'static str, Vec<&'static str>, bool)>, // (name, full declaration, arg idents, async)
+}
+
+fn trait_cases() -> Vec<TraitCase> {
+    vec![
+        TraitCase { generics: "", args: "Tr", methods: vec![("f", "fn f(&self);", vec![], false)] },
+        TraitCase { generics: "", args: "Tr", methods: vec![("f", "fn f(&self, a: i32, b: i32) -> i32;", vec!["a", "b"], false), ("g", "fn g(&self, a: i32, b: i32) -> i32;", vec!["a", "b"], false)] },
+        TraitCase { generics: "<T>", args: "Tr<T>", methods: vec![("f", "fn f(&self, x: T) -> T;", vec!["x"], false), ("g", "fn g<U>(&self, u: U, s: &str) -> U;", vec!["u", "s"], false), ("h", "fn h(&self) -> &str;", vec![], false)] },
+        TraitCase { generics: "", args: "Tr", methods: vec![("f", "async fn f(&self, a: String) -> usize;", vec!["a"], true), ("g", "fn g(&self, a: String, b: u8, c: u8);", vec!["a", "b", "c"], false)] },
+        TraitCase { generics: "<'x, T: 'x>", args: "Tr<'x,T>", methods: vec![("f", "fn f(&self, r: &'x T) -> &'x T;", vec!["r"], false)] },
+        TraitCase { generics: "", args: "Tr", methods: vec![("f", "fn f(self: &Self, a: i32) -> i32;", vec!["a"], false)] },
+    ]
+}
+
+fn header_ok(r: &mut Report, input: &str, im: &syn::ItemImpl) {
+    // entrait's fixed requirement on the application type: Sync + 'static (never Send: the receiver is &self)
+    match im.generics.params.first() {
+        Some(syn::GenericParam::Type(tp)) if tp.ident == "EntraitT" => {
+            let got: Vec<String> = tp.bounds.iter().map(|b| tt_string(b)).collect();
+            if got != vec![":: core :: marker :: Sync".to_string(), "'static".to_string()] {
+                r.fail("fixed-bounds", input, format!("EntraitT: {} but the fixed requirement is ::core::marker::Sync + 'static", got.join(" + ")));
+            }
+        }
+        _ => r.fail("impl-generics", input, "first impl generic is not EntraitT".into()),
+    }
+    if squash(&tt_string(&im.self_ty)) != "::entrait::Impl<EntraitT>" {
+        r.fail("self-type", input, format!("implemented for `{}`", tt_string(&im.self_ty)));
+    }
+}
+
+fn entrait_t_bounds(im: &syn::ItemImpl) -> Vec<String> {
+    let mut v = vec![];
+    if let Some(w) = &im.generics.where_clause {
+        for p in &w.predicates {
+            if let syn::WherePredicate::Type(pt) = p {
+                if tt_string(&pt.bounded_ty) == "EntraitT" {
+                    v.extend(pt.bounds.iter().map(|b| squash(&tt_string(b))));
+                }
+            }
+        }
+    }
+    v
+}
+
+fn c06(_ctx: &Ctx, r: &mut Report) {
+    r.domain = "6 trait shapes (1..3 methods, same-signature methods, generic trait, generic method, lifetimes, async, `self: &Self`) x delegation selector {default, delegate_by = Self, delegate_by = ref, delegate_by = Borrow} x {plain, async_trait}".into();
+    r.bound = "exhaustive over the listed shapes".into();
+    for tc in trait_cases() {
+        for sel in ["", "delegate_by = Self", "delegate_by = ref", "delegate_by = Borrow"] {
+            for at in ["", "#[async_trait]"] {
+                let has_async = tc.methods.iter().any(|m| m.3);
+                if !at.is_empty() && !has_async {
+                    continue;
+                }
+                let decls: Vec<&str> = tc.methods.iter().map(|m| m.1).collect();
+                let item = format!("{} pub trait Tr{} {{ {} }}", at, tc.generics, decls.join(" "));
+                let input = format!("#[entrait({})] {}", sel, item);
+                r.guarded(&input, |r| {
+                    let out = expand(Variant::Entrait, sel, &item);
+                    if let Some(e) = compile_error_of(&out) {
+                        r.fail("unexpected-error", &input, e);
+                        return;
+                    }
+                    let file = match parse_file(&out) {
+                        Ok(f) => f,
+                        Err(e) => {
+                            r.fail("unparsable", &input, e);
+                            return;
+                        }
+                    };
+                    let ims = find_impls(&file.items, "Tr");
+                    if ims.len() != 1 {
+                        r.fail("impl-count", &input, format!("{} impls of Tr", ims.len()));
+                        return;
+                    }
+                    let im = ims[0];
+                    header_ok(r, &input, im);
+                    // where clause: T provides the trait in the selected way
+                    let bounds = entrait_t_bounds(im);
+                    let targs = squash(tc.args);
+                    let dyn_suffix = if has_async { "" } else { "" };
+                    let _ = dyn_suffix;
+                    let want_first = match sel {
+                        "" | "delegate_by = Self" => targs.clone(),
+                        "delegate_by = ref" => format!("::core::convert::AsRef<dyn{}>", targs),
+                        _ => format!("::core::borrow::Borrow<dyn{}>", targs),
+                    };
+                    if bounds.first() != Some(&want_first) {
+                        r.fail("provider-bound", &input, format!("EntraitT is bounded by {:?}, expected first `{}`", bounds, want_first));
+                    }
+                    for b in bounds.iter().skip(1) {
+                        let ok = matches!(b.as_str(), "::core::marker::Sync" | "::core::marker::Send" | "'static");
+                        if !ok {
+                            r.fail("extra-bound", &input, format!("unexpected extra requirement `{}` on EntraitT", b));
+                        }
+                    }
+                    // methods: one per trait method, same order, forwarding once with the same arguments
+                    let ms = impl_methods(im);
+                    if ms.len() != tc.methods.len() {
+                        r.fail("method-count", &input, format!("{} trait methods, {} delegating methods", tc.methods.len(), ms.len()));
+                        return;
+                    }
+                    for (k, (name, _decl, args, is_async)) in tc.methods.iter().enumerate() {
+                        let m = ms[k];
+                        if m.sig.ident != *name {
+                            r.fail("method-order", &input, format!("method {} is `{}`, expected `{}`", k, m.sig.ident, name));
+                        }
+                        let body = squash(&tt_string(&m.block));
+                        let chain = match sel {
+                            "" | "delegate_by = Self" => "self.as_ref()",
+                            "delegate_by = ref" => "self.as_ref().as_ref()",
+                            _ => "self.as_ref().borrow()",
+                        };
+                        let want = format!("{{{}.{}({}){}}}", chain, name, args.join(","), if *is_async { ".await" } else { "" });
+                        if body != want {
+                            r.fail("forwarding-call", &input, format!("method `{}` body is `{}`, expected `{}`", name, body, want));
+                        }
+                    }
+                });
+            }
+        }
+    }
+}
+
+fn c07(_ctx: &Ctx, r: &mut Report) {
+    r.domain = "delegated traits (the 6 shapes of c06) x {static: delegate_by = DelegateTr, dynamic: delegate_by = ref, dynamic: delegate_by = Borrow}; impl blocks `#[entrait] impl TrImpl for X` / `#[entrait(ref)]` / `#[entrait(dyn)]` with 1..3 fns, 0..2 further dependency bounds, sync and async".into();
+    r.bound = "exhaustive over the listed shapes".into();
+    for tc in trait_cases() {
+        if tc.generics.contains("'x") {
+            continue;
+        }
+        for (sel, dynamic) in [("TrImpl, delegate_by = DelegateTr", false), ("TrImpl, delegate_by = ref", true), ("TrImpl, delegate_by = Borrow", true)] {
+            let decls: Vec<&str> = tc.methods.iter().map(|m| m.1).collect();
+            let item = format!("pub trait Tr{} {{ {} }}", tc.generics, decls.join(" "));
+            let input = format!("#[entrait({})] {}", sel, item);
+            let has_async = tc.methods.iter().any(|m| m.3);
+            r.guarded(&input, |r| {
+                let out = expand(Variant::Entrait, sel, &item);
+                if let Some(e) = compile_error_of(&out) {
+                    r.fail("unexpected-error", &input, e);
+                    return;
+                }
+                let file = match parse_file(&out) {
+                    Ok(f) => f,
+                    Err(e) => {
+                        r.fail("unparsable", &input, e);
+                        return;
+                    }
+                };
+                // the delegation-target trait
+                let target = match find_trait(&file.items, "TrImpl") {
+                    Some(t) => t,
+                    None => {
+                        r.fail("no-target-trait", &input, "trait TrImpl not generated".into());
+                        return;
+                    }
+                };
+                match target.generics.params.first() {
+                    Some(syn::GenericParam::Type(tp)) if tp.ident == "EntraitT" => {}
+                    _ => r.fail("target-generics", &input, "TrImpl's first generic parameter is not EntraitT".into()),
+                }
+                let tms = trait_methods(target);
+                if tms.len() != tc.methods.len() {
+                    r.fail("target-method-count", &input, format!("{} methods in TrImpl, {} in Tr", tms.len(), tc.methods.len()));
+                    return;
+                }
+                for (k, (name, _d, args, _)) in tc.methods.iter().enumerate() {
+                    let sig = &tms[k].sig;
+                    if sig.ident != *name {
+                        r.fail("target-method-order", &input, format!("TrImpl method {} is `{}`", k, sig.ident));
+                    }
+                    let ins: Vec<String> = sig.inputs.iter().map(|a| squash(&tt_string(a))).collect();
+                    let impl_param = "__impl:&::entrait::Impl<EntraitT>".to_string();
+                    let head: Vec<String> = if dynamic { vec!["&self".into(), impl_param.clone()] } else { vec![impl_param.clone()] };
+                    let got_head: Vec<String> = ins.iter().take(head.len()).cloned().collect();
+                    let recv_ok = got_head == head || (dynamic && got_head == vec!["self:&Self".to_string(), impl_param.clone()]);
+                    if !recv_ok {
+                        let class = if _d.contains("self: &Self") && !dynamic { "target-receiver-typed-self" } else { "target-receiver" };
+                        r.fail(class, &input, format!("TrImpl::{} starts with ({}), expected ({})", name, got_head.join(", "), head.join(", ")));
+                    }
+                    if ins.len() != head.len() + args.len() {
+                        r.fail("target-arity", &input, format!("TrImpl::{} has {} inputs", name, ins.len()));
+                    }
+                }
+                if !dynamic {
+                    // pub trait DelegateTr<T> { type Target: TrImpl<T>; }
+                    match find_trait(&file.items, "DelegateTr") {
+                        Some(d) => {
+                            let s = squash(&tt_string(d));
+                            if !s.contains("DelegateTr<T>{typeTarget:TrImpl<T>;}") {
+                                r.fail("selector-trait", &input, format!("selector trait is `{}`", tt_string(d)));
+                            }
+                        }
+                        None => r.fail("selector-trait", &input, "selector trait DelegateTr not generated".into()),
+                    }
+                }
+                // Impl<T> reaches the selected block
+                let ims = find_impls(&file.items, "Tr");
+                if ims.len() != 1 {
+                    r.fail("impl-count", &input, format!("{} impls of Tr", ims.len()));
+                    return;
+                }
+                header_ok(r, &input, ims[0]);
+                let bounds = entrait_t_bounds(ims[0]);
+                let plus_sync = if has_async { "+::core::marker::Sync" } else { "" };
+                let want_first = if !dynamic {
+                    "DelegateTr<EntraitT>".to_string()
+                } else if sel.contains("Borrow") {
+                    format!("::core::borrow::Borrow<dynTrImpl<EntraitT>{}>", plus_sync)
+                } else {
+                    format!("::core::convert::AsRef<dynTrImpl<EntraitT>{}>", plus_sync)
+                };
+                if bounds.first() != Some(&want_first) {
+                    r.fail("selector-bound", &input, format!("EntraitT is bounded by {:?}, expected first `{}`", bounds, want_first));
+                }
+                let ms = impl_methods(ims[0]);
+                for (k, (name, _d, args, is_async)) in tc.methods.iter().enumerate() {
+                    if k >= ms.len() {
+                        break;
+                    }
+                    let body = squash(&tt_string(&ms[k].block)).replace(",)", ")");
+                    let mut call_args = vec!["self".to_string()];
+                    call_args.extend(args.iter().map(|s| s.to_string()));
+                    let want = if !dynamic {
+                        format!("{{<EntraitT::TargetasTrImpl<EntraitT>>::{}({}){}}}", name, call_args.join(","), if *is_async { ".await" } else { "" })
+                    } else if sel.contains("Borrow") {
+                        format!("{{<EntraitTas::core::borrow::Borrow<dynTrImpl<EntraitT>{}>>::borrow(&*self).{}({}){}}}", plus_sync, name, call_args.join(","), if *is_async { ".await" } else { "" })
+                    } else {
+                        format!("{{<EntraitTas::core::convert::AsRef<dynTrImpl<EntraitT>{}>>::as_ref(&*self).{}({}){}}}", plus_sync, name, call_args.join(","), if *is_async { ".await" } else { "" })
+                    };
+                    if body != want {
+                        r.fail("inversion-call", &input, format!("Tr::{} body is `{}`, expected `{}`", name, body, want));
+                    }
+                }
+            });
+        }
+    }
+    // impl blocks
+    for (attr, dynamic) in [("", false), ("ref", true), ("dyn", true)] {
+        for nfn in 1..=3usize {
+            for is_async in [false, true] {
+                for bounds in ["", "A", "A + B"] {
+                    let names = ["f", "g", "h"];
+                    let fns: Vec<String> = (0..nfn)
+                        .map(|k| {
+                            let g = if bounds.is_empty() { "<D>".to_string() } else { format!("<D: {}>", bounds) };
+                            format!("pub {} fn {}{}(deps: &D, a: i32, b: &str) -> i32 {{ body_{}!() }}", if is_async { "async" } else { "" }, names[k], g, names[k])
+                        })
+                        .collect();
+                    let item = format!("impl TrImpl for MyType {{ const K: u8 = 1; {} }}", fns.join(" "));
+                    let input = format!("#[entrait({})] {}", attr, item);
+                    r.guarded(&input, |r| {
+                        let out = expand(Variant::Entrait, attr, &item);
+                        if let Some(e) = compile_error_of(&out) {
+                            r.fail("unexpected-error", &input, e);
+                            return;
+                        }
+                        let file = match parse_file(&out) {
+                            Ok(f) => f,
+                            Err(e) => {
+                                r.fail("unparsable", &input, e);
+                                return;
+                            }
+                        };
+                        let ims = find_impls(&file.items, "TrImpl");
+                        if ims.len() != 1 {
+                            r.fail("impl-count", &input, format!("{} impls of TrImpl", ims.len()));
+                            return;
+                        }
+                        let im = ims[0];
+                        if squash(&tt_string(&im.self_ty)) != "MyType" {
+                            r.fail("self-type", &input, format!("implemented for `{}`", tt_string(&im.self_ty)));
+                        }
+                        let tr = squash(&im.trait_.as_ref().map(|t| tt_string(&t.1)).unwrap_or_default());
+                        if tr != "TrImpl<EntraitT>" {
+                            r.fail("trait-arguments", &input, format!("implements `{}`, expected `TrImpl<EntraitT>`", tr));
+                        }
+                        // further dependencies are demanded of ::entrait::Impl<EntraitT>
+                        let mut impl_bounds: Vec<String> = vec![];
+                        if let Some(w) = &im.generics.where_clause {
+                            for p in &w.predicates {
+                                if let syn::WherePredicate::Type(pt) = p {
+                                    if squash(&tt_string(&pt.bounded_ty)) == "::entrait::Impl<EntraitT>" {
+                                        impl_bounds.extend(pt.bounds.iter().map(|b| tt_string(b)));
+                                    }
+                                }
+                            }
+                        }
+                        let per_fn: Vec<&str> = if bounds.is_empty() { vec![] } else { bounds.split(" + ").collect() };
+                        let want_b: Vec<String> = (0..nfn).flat_map(|_| per_fn.iter().map(|s| s.to_string())).collect();
+                        if impl_bounds != want_b {
+                            r.fail("further-dependencies", &input, format!("Impl<EntraitT> must satisfy [{}], the where clause says [{}]", want_b.join(", "), impl_bounds.join(", ")));
+                        }
+                        let ms = impl_methods(im);
+                        if ms.len() != nfn {
+                            r.fail("method-count", &input, format!("{} fns, {} methods", nfn, ms.len()));
+                            return;
+                        }
+                        for k in 0..nfn {
+                            // method k calls Self::<fn k>(__impl, a, b)
+                            let ins: Vec<String> = ms[k].sig.inputs.iter().map(|a| squash(&tt_string(a))).collect();
+                            let head: Vec<&str> = if dynamic { vec!["&self", "__impl:&::entrait::Impl<EntraitT>"] } else { vec!["__impl:&::entrait::Impl<EntraitT>"] };
+                            if ins.iter().take(head.len()).map(|s| s.as_str()).collect::<Vec<_>>() != head {
+                                r.fail("impl-receiver", &input, format!("method {} inputs start with {:?}", names[k], ins));
+                            }
+                            let body = squash(&tt_string(&ms[k].block));
+                            let want = format!("{{Self::{}(__impl,a,b){}}}", names[k], if is_async { ".await" } else { "" });
+                            if body != want {
+                                r.fail("block-call", &input, format!("method `{}` body is `{}`, expected `{}`", names[k], body, want));
+                            }
+                        }
+                        // the original block survives as an inherent impl with every item
+                        let inherent: Vec<&syn::ItemImpl> = file.items.iter().filter_map(|i| if let syn::Item::Impl(x) = i { if x.trait_.is_none() { Some(x) } else { None } } else { None }).collect();
+                        if inherent.len() != 1 || inherent[0].items.len() != nfn + 1 {
+                            r.fail("inherent-impl", &input, "the impl block's items were not re-emitted as one inherent impl".into());
+                        }
+                    });
+                }
+            }
+        }
+    }
+}
+
+fn c09(_ctx: &Ctx, r: &mut Report) {
+    r.domain = "trait definitions: visibility {none, pub, pub(crate)} x {safe, unsafe} x generics / supertraits / where clause {absent, present} x attributes on trait and methods x method kinds {required, with default body, async} x associated type {absent, present}; option sets {none, mockall, unimock, delegate_by = ref}".into();
+    r.bound = "exhaustive over the listed features (2^k combinations)".into();
+    for vis in ["", "pub", "pub(crate)"] {
+        for unsafety in ["", "unsafe"] {
+            for feat in 0..32u32 {
+                let generics = feat & 1 != 0;
+                let supers = feat & 2 != 0;
+                let wher = feat & 4 != 0;
+                let default_body = feat & 8 != 0;
+                let assoc = feat & 16 != 0;
+                for opts in ["", "mockall", "unimock", "delegate_by = ref"] {
+                    let tattrs = "#[doc = \"trait docs\"] #[allow(dead_code)]";
+                    let body = format!(
+                        "{} #[doc = \"m\"] fn f(&self, a: i32) -> i32; {} async fn h(&self) -> u8;",
+                        if assoc { "type Out;" } else { "" },
+                        if default_body { "fn g(&self) -> i32 { 42 }" } else { "fn g(&self) -> i32;" }
+                    );
+                    let item = format!(
+                        "{} {} {} trait Tr{} {} {} {{ {} }}",
+                        tattrs,
+                        vis,
+                        unsafety,
+                        if generics { "<'a, T: Clone, const N: usize>" } else { "" },
+                        if supers { ": Send + Sync" } else { "" },
+                        if wher && generics { "where T: Default" } else if wher { "where Self: Sized" } else { "" },
+                        body
+                    );
+                    let input = format!("#[entrait({})] {}", opts, item);
+                    r.guarded(&input, |r| {
+                        let out = expand(Variant::Entrait, opts, &item);
+                        if let Some(e) = compile_error_of(&out) {
+                            r.fail("unexpected-error", &input, e);
+                            return;
+                        }
+                        let file = match parse_file(&out) {
+                            Ok(f) => f,
+                            Err(e) => {
+                                r.fail("unparsable", &input, e);
+                                return;
+                            }
+                        };
+                        let orig: syn::ItemTrait = syn::parse_str(&item).unwrap();
+                        let t = match find_trait(&file.items, "Tr") {
+                            Some(t) => t,
+                            None => {
+                                r.fail("no-trait", &input, "trait Tr missing from the expansion".into());
+                                return;
+                            }
+                        };
+                        if tt_string(&t.vis) != tt_string(&orig.vis) {
+                            r.fail("visibility", &input, format!("`{}` became `{}`", tt_string(&orig.vis), tt_string(&t.vis)));
+                        }
+                        if t.unsafety.is_some() != orig.unsafety.is_some() {
+                            r.fail("unsafety", &input, "the `unsafe` qualifier was not preserved".into());
+                        }
+                        if tt_string(&t.generics.params) != tt_string(&orig.generics.params) {
+                            r.fail("generics", &input, format!("generics `{}` became `{}`", tt_string(&orig.generics.params), tt_string(&t.generics.params)));
+                        }
+                        if tt_string(&t.generics.where_clause) != tt_string(&orig.generics.where_clause) {
+                            r.fail("where-clause", &input, format!("where clause `{}` became `{}`", tt_string(&orig.generics.where_clause), tt_string(&t.generics.where_clause)));
+                        }
+                        if tt_string(&t.supertraits) != tt_string(&orig.supertraits) {
+                            r.fail("supertraits", &input, format!("supertraits `{}` became `{}`", tt_string(&orig.supertraits), tt_string(&t.supertraits)));
+                        }
+                        // attributes: the user's, in order; the macro may add only mock derivations it owns
+                        let user: Vec<String> = orig.attrs.iter().map(|a| tt_string(a)).collect();
+                        let got: Vec<String> = t.attrs.iter().map(|a| tt_string(a)).filter(|s| !(s.contains("unimock") || s.contains("automock"))).collect();
+                        if got != user {
+                            r.fail("trait-attributes", &input, format!("trait attributes {:?}, written {:?}", got, user));
+                        }
+                        // items
+                        let om = trait_methods(&orig);
+                        let tm = trait_methods(t);
+                        if om.len() != tm.len() {
+                            r.fail("method-count", &input, format!("{} methods became {}", om.len(), tm.len()));
+                            return;
+                        }
+                        for (a, b) in om.iter().zip(tm.iter()) {
+                            if a.attrs.iter().map(|x| tt_string(x)).collect::<Vec<_>>() != b.attrs.iter().map(|x| tt_string(x)).collect::<Vec<_>>() {
+                                r.fail("method-attributes", &input, format!("attributes of `{}` changed", a.sig.ident));
+                            }
+                            if a.sig.asyncness.is_none() && tt_string(&a.sig) != tt_string(&b.sig) {
+                                r.fail("method-signature", &input, format!("`{}` became `{}`", tt_string(&a.sig), tt_string(&b.sig)));
+                            }
+                            if a.default.is_some() && b.default.is_none() {
+                                r.fail("default-body-dropped", &input, format!("the default body of `{}` was dropped", a.sig.ident));
+                            } else if tt_string(&a.default) != tt_string(&b.default) {
+                                r.fail("default-body-changed", &input, format!("the default body of `{}` changed", a.sig.ident));
+                            }
+                        }
+                        let otypes = orig.items.iter().filter(|i| matches!(i, syn::TraitItem::Type(_))).count();
+                        let ttypes = t.items.iter().filter(|i| matches!(i, syn::TraitItem::Type(_))).count();
+                        if otypes != ttypes {
+                            r.fail("associated-type-dropped", &input, format!("{} associated type(s) in the input, {} in the output", otypes, ttypes));
+                        }
+                    });
+                }
+            }
+        }
+    }
+}
